@@ -54,11 +54,13 @@ type nodeTx struct {
 // PendingRequests query only.
 type node struct {
 	fakeRPC
-	committed    map[uint64]bool
-	sub          chan ctypes.ResultEvent
-	startupCalls int // completed start-up calls of the daemon (Subscribe, PendingRequests query), in whatever order it makes them
-	seq          uint64
-	txs          []*nodeTx
+	committed     map[uint64]bool
+	sub           chan ctypes.ResultEvent
+	failPending   bool // scenario option: the start-up PendingRequests query may fail (one environment deviation)
+	pendingFailed bool
+	startupCalls  int // completed start-up calls of the daemon (Subscribe, PendingRequests query), in whatever order it makes them
+	seq           uint64
+	txs           []*nodeTx
 }
 
 func (n *node) Start() error { return nil }
@@ -95,6 +97,11 @@ func (n *node) ABCIQuery(ctx context.Context, path string, data cmtbytes.HexByte
 		return n.fakeRPC.ABCIQuery(ctx, path, data)
 	}
 	vsched.Sleep(rpcLatency)
+	if n.failPending && vsched.Env("rpc-pending", 2) == 1 {
+		n.startupCalls++
+		n.pendingFailed = true
+		return nil, fmt.Errorf("injected rpc failure")
+	}
 	app := n.r.c.w.App
 	res, err := app.Query(context.Background(), &abci.RequestQuery{Path: path, Data: data})
 	if err != nil {
@@ -200,7 +207,7 @@ func scenarioRun(name string, before []string, steps []chainStep, maxTry, maxRep
 		if os.Getenv("VERIF_BUILD") == "" {
 			r.cacheDir = filepath.Join("/verif/build/homes", filepath.Base(r.cacheDir))
 		}
-		n := &node{fakeRPC: fakeRPC{r: r}, committed: map[uint64]bool{}}
+		n := &node{fakeRPC: fakeRPC{r: r}, committed: map[uint64]bool{}, failPending: strings.Contains(name, "start-up query fails")}
 		exited := ""
 		ids := func(tx string) (out []uint64) {
 			for _, nm := range strings.Split(tx, "+") {
@@ -242,6 +249,11 @@ func scenarioRun(name string, before []string, steps []chainStep, maxTry, maxRep
 			}
 			if len(s.Panics) > 0 || s.Deadlock || s.Livelock {
 				return "aborted", nil // reported by the explorer itself
+			}
+			if n.pendingFailed && exited != "" && exited != "runImpl returned" {
+				// the daemon could not learn which requests were pending and stopped with an error (its supervisor restarts it):
+				// nothing was dropped by a running daemon; a crash instead is reported by the explorer as daemon-panic
+				return "start-up-query-failed:daemon-exited-with-error", nil
 			}
 			if exited != "" {
 				add("daemon-run-loop-exited", "%s", exited)
@@ -289,7 +301,7 @@ func runLoopScenarios(quick bool, deadline time.Time) (scs []gosched.Scenario, b
 	pre := runPre(quick)
 	capN := int64(3000)
 	if !quick {
-		capN = 200000
+		capN = 50000
 	}
 	// start-up: G is committed between the daemon's two start-up calls (whatever their order: after the first, before the
 	// second), H after both (400 ms later, when G has been dealt with)
@@ -297,7 +309,7 @@ func runLoopScenarios(quick bool, deadline time.Time) (scs []gosched.Scenario, b
 		[]chainStep{{1, 0, "G"}, {2, 400 * time.Millisecond, "H"}}, 3, 2))
 	bounds = append(bounds, gosched.Bounds{Preemptions: pre, Faults: 0, Deadline: deadline})
 	// the same with D committed while the daemon was down: D and G are handled concurrently at start-up, whose
-	// non-preemptive schedules alone number > 30000; the first 3000 (quick) in depth-first order are run
+	// non-preemptive schedules alone number > 30000; the first 3000 (quick) / 50000 (thorough) in depth-first order are run
 	scs = append(scs, scenarioRun("run-loop: requests committed before, during and after start-up", []string{"D"},
 		[]chainStep{{1, 0, "G"}, {2, 400 * time.Millisecond, "H"}}, 3, 2))
 	bounds = append(bounds, gosched.Bounds{Preemptions: 0, Faults: 0, Deadline: deadline, MaxExecutions: capN})
@@ -310,5 +322,9 @@ func runLoopScenarios(quick bool, deadline time.Time) (scs []gosched.Scenario, b
 	scs = append(scs, scenarioRun("run-loop: four requests in one transaction, one key, max-report=2", nil,
 		[]chainStep{{2, 0, "D+G+H+I"}}, 3, 2))
 	bounds = append(bounds, gosched.Bounds{Preemptions: 0, Faults: 0, Deadline: deadline, MaxExecutions: capN})
+	// the PendingRequests query of the start-up fails (one environment deviation): the daemon must not crash; it may stop
+	// with an error, or carry on only if it still handles the request that was committed while it was down
+	scs = append(scs, scenarioRun("run-loop: start-up query fails", []string{"D"}, nil, 3, 2))
+	bounds = append(bounds, gosched.Bounds{Preemptions: 0, Faults: 1, Deadline: deadline, MaxExecutions: capN})
 	return
 }
